@@ -10,7 +10,10 @@ make(globals(), "C05", [Lifting],
            "fresh instance of the scheme fed the same recorded draws selects the same unit; (choice point) for a "
            "sample of tables every unit with positive derivative is taken as active on a fresh instance and the "
            "forced uniform variate is swept over (0,1) with bisection of every switch, giving the exact selection "
-           "measures and the flow balance sum_i q_i m_ik = |q_k|; non-trivial = >= 10 decisions and >= 1 explored "
+           "measures and the flow balance sum_i q_i m_ik = |q_k|; the same balance once more with the tables a copy of "
+           "the real event handler fills when each other unit is the active one of the same configuration (copy "
+           "driven through send_event_time / send_out_state with forced draws: the insertion order is the "
+           "handler's); non-trivial = >= 10 decisions and >= 1 explored "
            "table"),
      nontrivial=lambda r: r.probes.get("c05_decisions_checked", 0) >= 10 and r.probes.get("c05_tables_explored", 0) >= 1,
      crash_anchor_files=["/lifting/", "event_handler_with_bounding_potential.py",
